@@ -27,9 +27,7 @@ vars == <<l>>
 Match(ob, o) ==
   /\ ob.tag = o.tag
   /\ ob.off = o.off
-  /\ ob.len = o.rep.len
-  /\ ob.fb = o.rep.fb
-  /\ ob.rest = o.rep.rest
+  /\ [len |-> ob.len, fb |-> ob.fb, rest |-> ob.rest] \in o.reps
   /\ ~ob.long
   /\ ob.argc = 3          \* the value arrived as ONE field (quoted expansion)
 
